@@ -400,3 +400,106 @@ func execC08E2E(t *testing.T, c C08E2E) (v Verdict) {
 }
 
 func TestC08E2E(t *testing.T) { checkProp(t, "C08", "e2e", genC08E2E, execC08E2E) }
+
+// ---- several callers with different deadlines on one connection ----------------------------
+
+type C08Conc struct {
+	TimeoutsMs []int64 `json:"timeouts_ms"` // one per concurrent call (0 = no deadline)
+	Kinds      []int   `json:"kinds"`
+	Order      []byte  `json:"order"` // order in which the parked request writes are released
+	Ser        bool    `json:"ser"`
+}
+
+func genC08Conc(t *rapid.T) C08Conc {
+	n := rapid.IntRange(2, 5).Draw(t, "n")
+	c := C08Conc{Ser: rapid.Bool().Draw(t, "ser"), Order: rapid.SliceOfN(rapid.Byte(), 0, 8).Draw(t, "order")}
+	for i := 0; i < n; i++ {
+		c.TimeoutsMs = append(c.TimeoutsMs, rapid.SampledFrom([]int64{0, 5000, 60000, 3600000, 86400000}).Draw(t, "to")+int64(rapid.IntRange(0, 999).Draw(t, "jitter")))
+		c.Kinds = append(c.Kinds, rapid.SampledFrom([]int{kit.KindUnary, kit.KindBidi}).Draw(t, "kind"))
+	}
+	return c
+}
+
+func execC08Conc(t *testing.T, c C08Conc) (v Verdict) {
+	n := len(c.TimeoutsMs)
+	type hobs struct {
+		has bool
+		dl  time.Time
+		at  time.Time
+	}
+	hs := make([]hobs, n)
+	callerDL := make([]time.Time, n)
+	var mu sync.Mutex
+	res := kit.Bubble(t, func() {
+		svc := kit.NewSvc()
+		for i := 0; i < n; i++ {
+			i := i
+			rec := func(ctx context.Context) {
+				mu.Lock()
+				hs[i].dl, hs[i].has = ctx.Deadline()
+				hs[i].at = time.Now()
+				mu.Unlock()
+			}
+			svc.Unary(fmt.Sprintf("u%d", i), func(ctx context.Context, req []byte) ([]byte, error) { rec(ctx); return req, nil })
+			svc.Stream(fmt.Sprintf("s%d", i), true, true, func(s grpcServerStream) error { rec(s.Context()); return nil })
+		}
+		w := kit.NewWorld(kit.Topo{Kind: "direct", Serialize: c.Ser, Clients: 1}, svc, nil, nil)
+		l := w.Links[0]
+		l.A.Hold(func(r *kit.Rpc) bool { return r.GetTrailer() == nil && r.GetReset_() == nil }) // requests and opens park in the transport
+		sched := kit.NewSched(l)
+		var wg sync.WaitGroup
+		for i := 0; i < n; i++ {
+			i := i
+			wg.Add(1)
+			ctx := context.Background()
+			var cancel context.CancelFunc = func() {}
+			if c.TimeoutsMs[i] > 999 {
+				ctx, cancel = context.WithTimeout(ctx, time.Duration(c.TimeoutsMs[i])*time.Millisecond)
+				callerDL[i], _ = ctx.Deadline()
+			}
+			go func() {
+				defer wg.Done()
+				defer cancel()
+				if c.Kinds[i] == kit.KindUnary {
+					_, _ = kit.Invoke(ctx, w.Conn(0), fmt.Sprintf("u%d", i), []byte("x"))
+					return
+				}
+				cs, err := w.Conn(0).NewStream(ctx, kit.StreamDescFor(kit.KindBidi), kit.FullMethod(fmt.Sprintf("s%d", i)))
+				if err == nil {
+					_ = cs.CloseSend()
+					_, _ = kit.RecvBytes(cs)
+				}
+			}()
+			kit.Settle() // each call builds its request while the earlier ones are still parked in the transport
+		}
+		sched.Run(c.Order, 1000, nil)
+		sched.Drain()
+		wg.Wait()
+		w.Shutdown()
+		kit.Settle()
+	})
+	if res.Panic != nil {
+		v.failf("panic: %v", res.Panic)
+	}
+	for i := 0; i < n; i++ {
+		want := c.TimeoutsMs[i] > 999
+		if hs[i].at.IsZero() {
+			v.failf("call %d: handler never ran", i)
+			continue
+		}
+		if hs[i].has != want {
+			v.failf("call %d (timeout %dms): caller has deadline=%v, handler has deadline=%v", i, c.TimeoutsMs[i], want, hs[i].has)
+			continue
+		}
+		if want {
+			// zero transit in virtual time: within one millisecond below the caller's own deadline
+			if hs[i].dl.After(callerDL[i]) || hs[i].dl.Before(callerDL[i].Add(-time.Millisecond)) {
+				v.failf("call %d: handler deadline differs from its own caller's by %v (another call's deadline?)", i, hs[i].dl.Sub(callerDL[i]))
+			}
+		}
+	}
+	v.Info = kit.CaseInfo{Labels: []string{"e2e.concurrent"}, NonTrivial: true, Key: fmt.Sprintf("%+v", c), Sample: c}
+	return
+}
+
+func TestC08Conc(t *testing.T) { checkProp(t, "C08", "concurrent", genC08Conc, execC08Conc) }
